@@ -16,7 +16,8 @@
 (*             ([k, lat] with k in ok | refused | blackhole), idle > 0 means *)
 (*             it closes a TCP connection that many ms after its last reply  *)
 (*             when nothing is outstanding (and accepts a new connection);   *)
-(*   behaviour [k, lat]: k in answer | nx | trunc | io | busy | timeout;     *)
+(*   behaviour [k, lat]: k in answer | nx | trunc | io | busy | timeout |    *)
+(*             sendfail | recvfail;                                          *)
 (*   attempt   [s, p, n, o, q, st, en, res]: request number n to server s    *)
 (*             over p, made at time st on behalf of caller o (the origin),   *)
 (*             res = "" while no reply has been delivered (an attempt the    *)
@@ -39,8 +40,23 @@ Protos(srv)      == {p \in {"udp", "tcp"} : HasProto(srv, p)}
 BehAt(script, n) == IF n <= Len(script) THEN script[n] ELSE script[Len(script)]
 
 \* a reply that would arrive at or after the per-attempt timeout is a timeout
-EffKind(cfg, b) == IF b.k = "timeout" \/ b.lat >= cfg.ta THEN "timeout" ELSE b.k
-Dur(cfg, b)     == IF EffKind(cfg, b) = "timeout" THEN cfg.ta ELSE b.lat
+\* "for any pattern of transport faults (unreachable, reset, timeout, ...)": a server whose transport
+\* fails in any way -- the send is refused by the local stack at once (sendfail: no route, host or network
+\* unreachable, address not available), the receive fails (recvfail), the connection is reset (io) -- is
+\* a faulty server like any other: the observable outcome is "io"
+EffKind(cfg, b) ==
+    IF b.k = "sendfail" THEN "io"
+    ELSE IF b.k = "timeout" \/ b.lat >= cfg.ta THEN "timeout"
+    ELSE IF b.k = "recvfail" THEN "io"
+    ELSE b.k
+Dur(cfg, b)     == IF b.k = "sendfail" THEN 0 ELSE IF EffKind(cfg, b) = "timeout" THEN cfg.ta ELSE b.lat
+
+\* "concurrent IDENTICAL queries": the query a caller makes is the question (name, type, class -- here the
+\* index q of the name) together with the header bits and options that change what is being asked:
+\* RD, CD (and DO, the client subnet: not varied here).  Callers whose queries differ in ANY component
+\* each get an exchange of their own and the reply made for their own request.
+QueryKey(x) == <<x.q, x.rd, x.cd>>
+SameQuery(x, y) == QueryKey(x) = QueryKey(y)
 
 \* TCP connection attempts: refused after lat, black-holed (nothing comes back: given up after the
 \* configured connect timeout ct), or established after lat -- if that is before ct
